@@ -229,14 +229,14 @@ func runCase(cs schedCase) (out schedOut) {
 			case 0:
 				at, ok = ctl.advance(a, []string{"ReplaceFiles.beforeLock"}, func() {
 					_ = sh.TableStore().MergeOutOfOrder(sh.ID(), false, true)
-				}, 700*time.Millisecond)
+				}, 450*time.Millisecond)
 			case 1:
 				if a.running {
-					at, ok = ctl.advance(a, []string{"deleteUnorderedFiles.beforeMapDelete"}, nil, 700*time.Millisecond)
+					at, ok = ctl.advance(a, []string{"deleteUnorderedFiles.beforeMapDelete"}, nil, 450*time.Millisecond)
 				}
 			case 2:
 				if a.running {
-					at, ok = ctl.advance(a, nil, nil, 300*time.Millisecond)
+					at, ok = ctl.advance(a, nil, nil, 200*time.Millisecond)
 				}
 			}
 			if !a.running && st <= 2 {
